@@ -939,6 +939,32 @@ def check_single_recipient():
     return None
 
 
+def check_multi_recipients():
+    """(round 7) _parse_multi_recipients on strings: the pieces between ';' / ',' that give a name or an address, in order."""
+    from sharepoint2text.parsing.extractors.mail import msg_email_extractor as msg
+    table = [("", []), ("A <a@x.com>; B <b@x.com>", [("A", "a@x.com"), ("B", "b@x.com")]), ("u1@x.com, u2@x.com", [("", "u1@x.com"), ("", "u2@x.com")]),
+             ("A <a@x.com>;;  ; B", [("A", "a@x.com"), ("B", "")]), ("< > ; c@x.org", [("", "c@x.org")]), (";", []), ("One Name", [("One Name", "")]),
+             ("X <x@x.org>,Y <y@x.org>;Z <z@x.org>", [("X", "x@x.org"), ("Y", "y@x.org"), ("Z", "z@x.org")])]
+    for raw, want in table:
+        got = [(r.name, r.address) for r in msg._parse_multi_recipients(raw)]
+        if got != want:
+            return {"target": "msg_email_extractor.py::_parse_multi_recipients", "inputs": {"raw": raw}, "expected": want, "observed": got}
+    return None
+
+
+def check_looks_like_html():
+    """(round 7) _looks_like_html: the cases the contract distinguishes (empty, doctype / <html / <body in any case after leading
+    blanks, a listed tag closed at once); tags with attributes are the recorded finding C16-msg-html-fragment-not-recognised."""
+    from sharepoint2text.parsing.extractors.mail import msg_email_extractor as msg
+    table = [("", False), ("plain text", False), ("  \n<!DOCTYPE html><title>x</title>", True), ("x <HTML lang=en>", True), ("<Body\n>", True),
+             ("<p>para</p>", True), ("a < b", False), ("<BR>", True), ("1 <pre>x</pre>", False)]
+    for text, want in table:
+        got = msg._looks_like_html(text)
+        if got is not want:
+            return {"target": "msg_email_extractor.py::_looks_like_html", "inputs": {"text": text}, "expected": want, "observed": got}
+    return None
+
+
 def check_msg_fixture():
     """read_msg_format_mail on the repository's .msg fixtures against their .eml twins (field mapping)."""
     from sharepoint2text.parsing.extractors.mail import msg_email_extractor as msg
@@ -1251,7 +1277,8 @@ FUNCTION_CHECKS = [
     ("_read_eml_format", check_eml_raw_forms),
     ("MBOX_FROM_PATTERN", check_pattern), ("get_body_content", check_bodies),
     ("_split_mbox_messages", check_split), ("decode_header_value", check_headers), ("parse_email_address", check_headers),
-    ("iterate_supported_attachments", check_dispatch), ("_parse_single_recipient", check_single_recipient), ("read_msg_format_mail", check_msg_mapping), ("read_msg_format_mail", check_msg_fixture),
+    ("iterate_supported_attachments", check_dispatch), ("_parse_single_recipient", check_single_recipient), ("_parse_multi_recipients", check_multi_recipients),
+    ("_looks_like_html", check_looks_like_html), ("read_msg_format_mail", check_msg_mapping), ("read_msg_format_mail", check_msg_fixture),
 ]
 CATEGORY_OF = [("parse_email_message", "mbox:"), ("get_body_content", "mbox:body"), ("read_mbox_format_mail", "mailbox:"), ("_read_eml_format", "eml:"),
                ("read_eml_format_mail", "eml:")]
